@@ -654,7 +654,11 @@ static INLINE void dec_save_lf_boundary_lines_sb_row(EbDecHandle *  dec_handle,
         int32_t src_width  = frame_size->frame_width >> ss_x;
         int32_t src_height = frame_size->frame_height >> ss_y;
 
-        for (int32_t row_cnt = 0; row_cnt <= num64s; row_cnt++) {
+        // the stripes are offset by 8 lines against the superblock rows: a picture whose height is a multiple of 64, or 57..63
+        // above one, has one stripe more than 64-line rows; the last superblock row also saves for that one
+        const EbBool last_sb_row = sb_row ==
+            dec_handle->main_frame_buf.cur_frame_bufs[0].dec_mt_frame_data.sb_rows - 1;
+        for (int32_t row_cnt = 0; row_cnt <= num64s || last_sb_row; row_cnt++) {
             const int32_t frame_stripe = (sb_row << num64s) + row_cnt; /* 64 strip */
             const int32_t rel_y0       = AOMMAX(0, frame_stripe * stripe_height - stripe_off);
             const int32_t y0           = tile_rect[p]->top + rel_y0;
@@ -724,8 +728,9 @@ static INLINE void dec_save_CDEF_boundary_lines_SB_row(EbDecHandle *  dec_handle
         int32_t                      src_width  = frame_size->frame_width >> ss_x;
 
         /* 64 strip */
+        // index of the stripe that holds the last line (stripes start 8 lines above the 64-line grid)
         const int32_t frame_stripe = sb_row == dec_mt_frame_data->sb_rows - 1
-            ? frame_size->frame_height >> MIN_SB_SIZE_LOG2
+            ? (frame_size->frame_height + RESTORATION_UNIT_OFFSET - 1) >> MIN_SB_SIZE_LOG2
             : 0;
 
         const int32_t rel_y0 = AOMMAX(0, frame_stripe * stripe_height - stripe_off);
